@@ -501,6 +501,10 @@ process_trace(struct trace *trace)
 	for (struct stream *stream = trace->streams; stream; stream = stream->next) {
 		stream_allow_unsorted(stream);
 
+		/* Nothing to sort or check in a stream without events */
+		if (!stream->active)
+			continue;
+
 		if (operation_mode == SORT) {
 			dbg("sorting stream %s", stream->relpath);
 			if (stream_winsort(stream, &ring) != 0) {
